@@ -186,6 +186,11 @@ func init() {
 			if sessEq(a, b) {
 				b.Salt++
 			}
+			if i%4 == 3 { // what the client does all the time: the same key and address, another salt
+				cp := *a
+				cp.Salt = a.Salt + 1 + int64(rng.Intn(1000))
+				b = &cp
+			}
 			pairs = append(pairs, pair{a, b})
 		}
 		shapes := []string{"absolute", "relative", "bare"}
@@ -254,6 +259,22 @@ func init() {
 			}
 		}
 		rec(nil)
+		// longer named histories: a cached session, then a crash (with and without a tick), then repeated loads; stores
+		// by the other loader in between; a store of the session the loader already holds after a foreign one
+		for _, named := range [][]string{
+			{"S11", "L1", "C", "L1", "L1"}, {"S11", "L1", "T", "C", "L1", "L1", "L1"}, {"S11", "L1", "T", "C", "L1", "L2", "L1"},
+			{"S11", "L1", "T", "S22", "T", "S11", "L2", "L1"}, {"S11", "L1", "L2", "T", "S12", "L1", "L2"}, {"S11", "L1", "T", "S22", "L1", "T", "S11", "L1"},
+			{"S12", "L1", "T", "S11", "T", "C", "L1", "L1", "T", "S12", "L1"}} {
+			for rep := 0; rep < 3; rep++ {
+				begin(fmt.Sprint(named), (rep*5+len(named))%len(pairs))
+				for _, sym := range named {
+					exec(sym)
+					nops++
+				}
+				r.doObserve()
+				nops++
+			}
+		}
 		nseq := seqNo
 		// every prefix length as a crash point, on a fresh file and over a cached session
 		for pi := 0; pi < *crashConc && pi < len(pairs); pi++ {
